@@ -27,6 +27,7 @@ type result struct {
 	affected int64
 	lastID   int64
 	isQuery  bool
+	writes   []RowWrite // rows changed by this statement (before/after as seen by the transaction)
 }
 
 type parsed struct {
@@ -1148,11 +1149,22 @@ func (c *Conn) doInsert(st *ast.InsertStmt, args []interface{}) (*result, error)
 		res.affected++
 	}
 	// apply
+	tname := strings.ToLower(tab.Schema + "." + tab.Name)
 	for _, p := range plan {
 		if p.del != "" {
+			if old, ok := c.txn.visible(tab, p.del); ok {
+				res.writes = append(res.writes, RowWrite{tname, p.del, old.clone(), nil})
+			}
 			c.txn.write(tab, p.del, nil)
 			continue
 		}
+		var before Row
+		if old, ok := c.txn.visible(tab, p.key); ok {
+			before = old.clone()
+		} else if p.old != nil {
+			before = p.old.clone()
+		}
+		res.writes = append(res.writes, RowWrite{tname, p.key, before, p.row.clone()})
 		c.txn.write(tab, p.key, p.row)
 	}
 	tab.autoInc = autoCounter
@@ -1246,9 +1258,15 @@ func (c *Conn) doUpdate(st *ast.UpdateStmt, args []interface{}) (*result, error)
 		}
 		changes = append(changes, ch{keys[i], nk, upd})
 	}
+	tname := strings.ToLower(tab.Schema + "." + tab.Name)
 	for _, cg := range changes {
+		old, _ := c.txn.visible(tab, cg.oldKey)
 		if cg.newKey != cg.oldKey {
+			res.writes = append(res.writes, RowWrite{tname, cg.oldKey, old.clone(), nil})
+			res.writes = append(res.writes, RowWrite{tname, cg.newKey, nil, cg.row.clone()})
 			c.txn.write(tab, cg.oldKey, nil)
+		} else {
+			res.writes = append(res.writes, RowWrite{tname, cg.oldKey, old.clone(), cg.row.clone()})
 		}
 		c.txn.write(tab, cg.newKey, cg.row)
 		res.affected++
@@ -1276,10 +1294,15 @@ func (c *Conn) doDelete(st *ast.DeleteStmt, args []interface{}) (*result, error)
 	if err := c.lockRows(tab, keys); err != nil {
 		return nil, err
 	}
+	res := &result{affected: int64(len(keys))}
+	tname := strings.ToLower(tab.Schema + "." + tab.Name)
 	for _, k := range keys {
+		if old, ok := c.txn.visible(tab, k); ok {
+			res.writes = append(res.writes, RowWrite{tname, k, old.clone(), nil})
+		}
 		c.txn.write(tab, k, nil)
 	}
-	return &result{affected: int64(len(keys))}, nil
+	return res, nil
 }
 
 // ---- DDL -----------------------------------------------------------------------------------
@@ -1300,7 +1323,7 @@ func typeName(tp byte, flag uint, flen int) (dataType string) {
 		return "float"
 	case mysql.TypeDouble:
 		return "double"
-	case mysql.TypeNewDecimal, mysql.TypeDecimal:
+	case mysql.TypeNewDecimal, mysql.TypeUnspecified:
 		return "decimal"
 	case mysql.TypeDate, mysql.TypeNewDate:
 		return "date"
